@@ -37,9 +37,8 @@ void harness(void) {
 #elif defined(H_ECH)
   rci_t r = mzd_echelonize(A, FULL);
 #else
-  rci_t r0 = mzd_echelonize_naive(A, 0);   /* a row echelon form ... */
-  rci_t r  = mzd_top_echelonize_m4ri(A, KPAR); /* ... completed by the top-reduction routine */
-  VP_ASSERT(r0 == r, "top reduction keeps the rank");
+  rci_t r = mzd_echelonize_naive(A, 0); /* a row echelon form ... */
+  mzd_top_echelonize_m4ri(A, KPAR);     /* ... completed by the top-reduction routine */
 #endif
   VP_CANARY();
   vp_read(&R, A);
